@@ -11,7 +11,7 @@ from ..core import Acc, Violation, run_hypothesis, shard_seed
 PROPERTY = 'C20'
 RULE = ('operator x (value, unit) x operand x form {Quantity-op-number, number-op-Quantity, Quantity-op-Quantity, Quantity-op-itself, unary, '
         'conversion, three-argument pow}: outcome(op on Quantity(v,u)) must equal outcome(op on v) where an outcome is '
-        '(result type, repr of result) or the exception type. Complete product of a catalogue of ints/floats (0, -0.0, '
+        '(result type, repr of result) or the exception type (a subclass of the expected class counts as that class). Complete product of a catalogue of ints/floats (0, -0.0, '
         '+-1, 2, 3, 7, -5, 0.5, -1.5, 1e308, 5e-324, +-2**64, inf, -inf, nan, True) plus Hypothesis ints/floats. '
         'Non-trivial = an operand is zero/non-finite/bool, or the raw outcome is an exception, or the form is reflected '
         'or Quantity-Quantity; distinct by (op, form, operands, units).')
